@@ -85,15 +85,15 @@ func vCheckCandidates(src, tgt string) (string, int) {
 	return "", len(mrs)
 }
 
-var vC17Alphabet = []string{"a", "b", " ", ".", "\n", "\xff", "é", " ", ",", "漢", "́", " ", "-", "\xe2\x80"}
+var vC17Alphabet = []string{"a", "b", " ", ".", "\n", "\xff", "é", "\xef\xbf\xbd", " ", ",", "漢", "́", " ", "-", "\xe2\x80"}
 
 func TestVerifC17(t *testing.T) {
 	e := vStart(t, "C17")
 	defer e.finish()
 
 	// (1) tokenizer: exhaustive strings over a small hostile alphabet
-	L := e.pick(6, 8)
-	alpha := vC17Alphabet[:7]
+	L := e.pick(6, 7)
+	alpha := vC17Alphabet[:8]
 	idx := 0
 	total := 1
 	for l := 0; l < L; l++ {
@@ -172,7 +172,7 @@ func TestVerifC17(t *testing.T) {
 					for i := range w {
 						w[i] = string(rune('a' + r.Intn(vocab)))
 						if r.Intn(10) == 0 {
-							w[i] = []string{"é", "漢", "a\xffb", "x."}[r.Intn(4)]
+							w[i] = []string{"é", "漢", "a\xffb", "x.", "q\xef\xbf\xbdr", "\xef\xbf\xbd"}[r.Intn(6)]
 						}
 					}
 					return strings.Join(w, sep)
